@@ -86,8 +86,11 @@ def classify_ref(op, desc, shapes, sizes):
         return "unknown"
     if len(ins) != len(shapes):
         return "illformed:tensor-count"
+    # a size keyword for an axis that does not occur in the description is ignored by einx on purpose (solve.py: "Remove unused constraints")
+    used = R.names_under(ins + outs)
     try:
-        sols = R.all_solutions(ins + outs, list(shapes) + [None] * len(outs), {k: v for k, v in sizes.items() if isinstance(v, (int, tuple))}, free_witnesses=True)
+        sols = R.all_solutions(ins + outs, list(shapes) + [None] * len(outs), {k: v for k, v in sizes.items() if isinstance(v, (int, tuple)) and k in used}, free_witnesses=True,
+                               max_rep=max([3] + [len(sh) for sh in shapes if sh is not None]))
     except R.NoSolution:
         return "illformed:unsat"
     except NotImplementedError:
@@ -234,6 +237,11 @@ def work_corrupt(chunk):
             if key in seen: continue
             seen.add(key)
             sizes = {k: v for k, v in kw.items() if k not in call.kw}
+            try:
+                used_names = R.names_under(sum(R.parse(desc)[0:1], []) + (R.parse(desc)[1] or []))
+                sizes = {k: v for k, v in sizes.items() if k in used_names}
+            except Exception:
+                pass
             badtype = any(not isinstance(v, (int, tuple, np.integer)) or isinstance(v, bool) for v in sizes.values()) or any((isinstance(v, int) and v <= 0) or (isinstance(v, tuple) and any(x <= 0 for x in v)) for v in sizes.values())
             if badtype: ref = "illformed:size-type"
             else:
